@@ -158,9 +158,12 @@ where
             self.data.resize_with(x.as_usize() + 1, Default::default);
         }
         let values = &mut self.data[x.as_usize()];
-        if values.last() != Some(&y) {
-            //a relation is recorded once, also if the newest item refers to the same thing multiple times
+        if values.last().map_or(true, |last| *last < y) {
+            //the common case: the newest item refers to this
             values.push(y);
+        } else if let Err(pos) = values.binary_search(&y) {
+            //a relation is recorded once, and an older item that refers to this later on is slotted in at its place: the values stay in order
+            values.insert(pos, y);
         }
     }
 
@@ -275,9 +278,12 @@ where
     /// Insert a relation into the map
     pub fn insert(&mut self, x: A, y: B) {
         if let Some(values) = self.data.get_mut(&x) {
-            if values.last() != Some(&y) {
-                //a relation is recorded once, also if the newest item refers to the same thing multiple times
+            if values.last().map_or(true, |last| *last < y) {
+                //the common case: the newest item refers to this
                 values.push(y);
+            } else if let Err(pos) = values.binary_search(&y) {
+                //a relation is recorded once, and an older item that refers to this later on is slotted in at its place: the values stay in order
+                values.insert(pos, y);
             }
         } else {
             self.data.insert(x, vec![y]);
